@@ -559,6 +559,63 @@ fn default_boundaries(ev: &mut Ev) {
     }
 }
 
+/// integer element types: a + b x + c y + d x y with integer coefficients on integer axes (any
+/// spacing) is reproduced *exactly* by Bilinear - every intermediate quotient is a whole number -
+/// and a + b x by Linear; in range and extrapolated
+fn integer_polynomials(ev: &mut Ev) {
+    use vh::ndarray::Array2;
+    use vh::ndarray_interp::interp1d::{Interp1D, Linear};
+    use vh::ndarray_interp::interp2d::{Bilinear, Interp2D};
+    let mut rng = Rng::derive(16, "C16-integer-polynomials", &[0]);
+    macro_rules! run {
+        ($t:ty, $name:expr, $id0:expr) => {{
+            for round in 0..60u64 {
+                let mk_axis = |rng: &mut Rng, n: usize| -> Vec<$t> {
+                    let mut v = Vec::new();
+                    let mut p = rng.irange(-30, 30) as $t;
+                    for _ in 0..n {
+                        v.push(p);
+                        p += 1 + rng.below(11) as $t;
+                    }
+                    v
+                };
+                let (nx, ny) = (2 + rng.below(4), 2 + rng.below(4));
+                let (xs, ys) = (mk_axis(&mut rng, nx), mk_axis(&mut rng, ny));
+                let (a, b, c, d) = (rng.irange(-20, 20) as $t, rng.irange(-6, 6) as $t, rng.irange(-6, 6) as $t, rng.irange(-4, 4) as $t);
+                let p = |x: $t, y: $t| a + b * x + c * y + d * x * y;
+                let extrapolate = round % 2 == 1;
+                let g = Array2::from_shape_fn((nx, ny), |(i, j)| p(xs[i], ys[j]));
+                let bil = Interp2D::builder(g).x(Array1::from(xs.clone())).y(Array1::from(ys.clone())).strategy(Bilinear::new().extrapolate(extrapolate)).build().unwrap();
+                let lin = Interp1D::builder(Array1::from(xs.iter().map(|&x| p(x, 3)).collect::<Vec<$t>>())).x(Array1::from(xs.clone())).strategy(Linear::new().extrapolate(extrapolate)).build().unwrap();
+                let pad: $t = if extrapolate { 9 } else { 0 };
+                'q: for qx in xs[0] - pad..=xs[nx - 1] + pad {
+                    ev.add("integer_polynomial_queries", 1);
+                    let got = vh::outcome::guard(|| lin.interp_scalar(qx).map_err(|e| e.to_string()));
+                    if got != Ok(Ok(p(qx, 3))) {
+                        ev.violation("C16:poly", &format!("{} Linear on x={xs:?}, data {a}+{b}x+{c}*3+{d}x*3, q={qx}: got {:?}, the polynomial gives {}", $name, got, p(qx, 3)), $id0 + round, J::obj().set("elem", $name));
+                        break 'q;
+                    }
+                    for qy in (ys[0] - pad..=ys[ny - 1] + pad).step_by(2) {
+                        ev.add("integer_polynomial_queries", 1);
+                        let got = vh::outcome::guard(|| bil.interp_scalar(qx, qy).map_err(|e| e.to_string()));
+                        if got != Ok(Ok(p(qx, qy))) {
+                            ev.violation(
+                                "C16:poly",
+                                &format!("{} Bilinear on x={xs:?}, y={ys:?}, data {a}+{b}x+{c}y+{d}xy, q=({qx},{qy}): got {:?}, the polynomial gives {}", $name, got, p(qx, qy)),
+                                $id0 + 500 + round,
+                                J::obj().set("elem", $name),
+                            );
+                            break 'q;
+                        }
+                    }
+                }
+            }
+        }};
+    }
+    run!(i64, "i64", 9_810_000u64);
+    run!(i32, "i32", 9_820_000u64);
+}
+
 fn main() {
     let args = Args::parse("C16");
     let n = args.budget(800, 150000);
@@ -576,6 +633,7 @@ fn main() {
     let mut ev = ev;
     if args.blocks() {
         default_boundaries(&mut ev);
+        integer_polynomials(&mut ev);
     }
     ev.finish(
         &args,
